@@ -96,6 +96,7 @@ var vhColumnSets = [][]string{
 
 //verif:shards 4
 //verif:bounds 4 table definitions (plain, INTEGER PRIMARY KEY alias with DEFAULT, table-constraint rowid alias, ordinary columns named oid/_rowid_) x 6 column lists (permutations, duplicates, rowid/oid/_rowid_, case variants, unknown names) x trees of 1 leaf or interior+2 leaves with 1..2 rows per leaf; row values and rowids any int64; first-leaf rows optionally one column short (ALTER TABLE ADD COLUMN)
+//verif:prop C01,C20
 func VH_C01_select() {
 	sc := vhSchemas[sdb.VerifShard(4)]
 	cols := vhColumnSets[sdb.VerifChoice(len(vhColumnSets))]
